@@ -17,6 +17,7 @@ Not decided: equality of final results and store contents.
 from __future__ import annotations
 
 import ast
+import re
 
 from ..astx import dep_slice, attr_writes, call_name, expand, kwarg, last
 from ..cfg import CFG
@@ -173,6 +174,27 @@ def run(chk) -> None:
         chk.ob("C12.R2", "every serialized in-progress entry is queued again (no iteration of the restore loop skips the append)", bool(apps) and not skipped, m=ms, node=h.ast, fn=from_s,
                instance="normal-form:every-in-progress-requeued", reason="an iteration can reach the next one without appending: that running invocation is dropped on resume")
     PARTS = ("in_progress", "queue", "collected_waiters", "collected_events")
+    # every restore loop: no iteration over a serialized part goes on to the next entry without restoring this one (a `continue`
+    # or a condition around the append drops queued work, a delivered-but-unconsumed waiter, a collected event)
+    from ..astx import iteration_can_skip as _ics
+    n_loops = 0
+    for lp in [l for l in ast.walk(from_s) if isinstance(l, ast.For)]:
+        part = next((p_ for p_ in PARTS if re.search(rf"\.{p_}\b", ast.unparse(lp.iter))), None)
+        if part is None:
+            continue
+        inner_loops = [x for x in ast.walk(lp) if isinstance(x, ast.For) and x is not lp]
+        must = [c for c in ast.walk(lp) if isinstance(c, ast.Call) and isinstance(c.func, ast.Attribute) and c.func.attr in ("append", "insert", "extend", "add", "setdefault", "update")
+                and not any(c is y for il in inner_loops for y in ast.walk(il))]
+        must += [t for a_ in ast.walk(lp) if isinstance(a_, ast.Assign) and not any(a_ is y for il in inner_loops for y in ast.walk(il)) for t in a_.targets if isinstance(t, ast.Subscript)]
+        if not must:
+            must = inner_loops      # a nested restore loop (events of one buffer) is the restoring action of the outer one
+        if not must:
+            continue
+        n_loops += 1
+        chk.ob("C12.R2", f"every serialized `{part}` entry is restored (no iteration of the restore loop skips its append / store)", not _ics(cfs, lp, must), m=ms, node=lp, fn=from_s,
+               instance=f"normal-form:every-entry-restored:{part}", reason=f"an iteration over the serialized `{part}` can go on to the next entry without restoring this one: that entry "
+               f"(queued work, a waiter whose event was already delivered, a collected event) is dropped on resume")
+    chk.floor("C12.R2", "restore loops over serialized parts in from_serialized (in_progress, collected_waiters; queue and buffers are comprehensions, see no-restore-filter; a missing in-progress loop is reported by in-progress-to-queue)", n_loops, 1)
     filt = [c for c in ast.walk(from_s) if isinstance(c, (ast.ListComp, ast.GeneratorExp, ast.DictComp, ast.SetComp)) and any(any(f".{p_}" in ast.unparse(g.iter) for p_ in PARTS) and g.ifs for g in c.generators)]
     # waiters restored without their (unserializable) requirements are re-registered by replaying the waiting step: one replay
     # per such waiter, or the resumed run never matches the others
@@ -214,6 +236,7 @@ def _enclosing_loop_iter(node: ast.AST) -> ast.AST:
 
 
 TWINS = [
+    Twin("delivered waiters are not restored while the step has running work", IS_REL, "            for waiter_data in worker_data.collected_waiters:\n", "            for waiter_data in worker_data.collected_waiters:\n                if waiter_data.resolved_event and worker_data.in_progress:\n                    continue\n", "C12.R2"),
     Twin("one replay per step instead of one per restored waiter", IS_REL, '            for waiter in sorted(\n                worker_state.collected_waiters, key=lambda x: x.waiter_id\n            ):\n                if waiter.has_requirements and not waiter.requirements:\n                    commands.append(\n                        TickAddEvent(event=waiter.event, step_name=step_name)\n                    )\n',
          "            pending = [w for w in sorted(worker_state.collected_waiters, key=lambda x: x.waiter_id) if w.has_requirements and not w.requirements]\n            if pending:\n                commands.append(TickAddEvent(event=pending[0].event, step_name=step_name))\n", "C12.R2"),
     Twin("replays de-duplicated by input event", IS_REL, '            for waiter in sorted(\n                worker_state.collected_waiters, key=lambda x: x.waiter_id\n            ):\n                if waiter.has_requirements and not waiter.requirements:\n                    commands.append(\n                        TickAddEvent(event=waiter.event, step_name=step_name)\n                    )\n',
